@@ -8,7 +8,7 @@
 (* 4 = no_writers, 5 = readers_queue.                                        *)
 EXTENDS Naturals, Sequences, FiniteSets
 
-CONSTANTS NR, NW, Rounds
+CONSTANTS NR, NW, Rounds, Loop   \* Loop = TRUE: threads repeat forever
 
 N == NR + NW
 Threads == 1..N
@@ -31,11 +31,14 @@ Acq(i) == lk[i] = 0 /\ lk' = [lk EXCEPT ![i] = 1]
 Rel(i) == lk[i] = 1 /\ lk' = [lk EXCEPT ![i] = 0]
 Goto(t, l) == pc' = [pc EXCEPT ![t] = l]
 NextRound(t) ==
-    IF rnd[t] + 1 < Rounds
-    THEN /\ rnd' = [rnd EXCEPT ![t] = rnd[t] + 1]
+    IF Loop
+    THEN /\ rnd' = rnd
          /\ Goto(t, First(t))
-    ELSE /\ rnd' = [rnd EXCEPT ![t] = rnd[t] + 1]
-         /\ Goto(t, DONE)
+    ELSE IF rnd[t] + 1 < Rounds
+         THEN /\ rnd' = [rnd EXCEPT ![t] = rnd[t] + 1]
+              /\ Goto(t, First(t))
+         ELSE /\ rnd' = [rnd EXCEPT ![t] = rnd[t] + 1]
+              /\ Goto(t, DONE)
 
 ReaderStep(t) ==
     \/ /\ pc[t] = 0  /\ Acq(5) /\ Goto(t, 1) /\ UNCHANGED <<rnd, rc, wc>>
@@ -66,7 +69,8 @@ WriterStep(t) ==
     \/ /\ pc[t] = 28 /\ Rel(2) /\ NextRound(t) /\ UNCHANGED <<rc, wc>>
 
 Step(t) == /\ (IF IsReader(t) THEN ReaderStep(t) ELSE WriterStep(t))
-           /\ steps' = [steps EXCEPT ![t] = steps[t] + 1]
+           /\ steps' = IF Loop THEN steps
+                        ELSE [steps EXCEPT ![t] = steps[t] + 1]
 
 AllDone == \A t \in Threads : pc[t] = DONE
 Finished == AllDone /\ UNCHANGED vars
